@@ -259,6 +259,29 @@ type PostMap struct {
 	Expr string `json:"expr"`
 }
 
+// SizeAssert is the `size` block of assert/response: the size of the response body (the bytes the target sent as the
+// body, however they were transferred) compared with Val. Op is one of the documented operators: ">" (the body is larger
+// than Val), "<" (smaller), "=" (exactly Val bytes); the documentation does not settle a body of exactly Val bytes for
+// "<" and ">" (see SizeHolds).
+type SizeAssert struct {
+	Op  string `json:"op"`
+	Val int    `json:"val"`
+}
+
+// SizeHolds judges a size assertion against a body of size bytes. settled is false where the documentation leaves the
+// outcome open: a body of exactly Val bytes under "<" or ">".
+func SizeHolds(a SizeAssert, size int) (holds, settled bool) {
+	switch a.Op {
+	case "=", "eq":
+		return size == a.Val, true
+	case "<", "lt":
+		return size < a.Val, size != a.Val
+	case ">", "gt":
+		return size > a.Val, size != a.Val
+	}
+	return false, false
+}
+
 // Post is one postprocessor.
 type Post struct {
 	Kind string    `json:"kind"`
@@ -267,6 +290,7 @@ type Post struct {
 	Status    int         `json:"status,omitempty"`
 	BodyHas   []string    `json:"body_has,omitempty"`
 	HeaderHas scengen.KVs `json:"header_has,omitempty"`
+	Size      *SizeAssert `json:"size,omitempty"`
 }
 
 // Request is one request definition.
@@ -282,6 +306,9 @@ type Request struct {
 	Templater string   `json:"templater,omitempty"` // "" | "text"
 	// RespKind is what the target serves to this request: "json" | "html" (world, not pandora).
 	RespKind string `json:"resp_kind"`
+	// RespPad makes the target's answers to this request that many bytes longer (a JSON member / an HTML comment that no
+	// capture expression of the menus looks at; world, not pandora).
+	RespPad int `json:"resp_pad,omitempty"`
 }
 
 // Captures reports whether the request captures var by a var/* postprocessor and with which expression.
@@ -427,6 +454,10 @@ func (p *Program) Model() scengen.Model {
 				if len(x.HeaderHas) > 0 {
 					h := append(scengen.KVs(nil), x.HeaderHas...)
 					mp.Headers = &h
+				}
+				if x.Size != nil {
+					v := x.Size.Val
+					mp.Size = &scengen.AssertSize{Op: x.Size.Op, Val: &v}
 				}
 			} else {
 				kv := scengen.KVs{}
